@@ -227,6 +227,39 @@ func runC03(c *rt.Ctx) {
 			}
 		}
 	}
+	// (5) read-modify-write: each connection first reads the key and then writes it (whatever a
+	// connection remembers about its previous command must not change how the next one is locked)
+	for _, lock := range []string{"single", "multi"} {
+		cfg := Cfg{Orca: "l1l2b", Lock: lock, Proto: "binary", L1H: "std", Conc: 4}
+		reads := []wire.Op{{Kind: "get", Key: "a"}}
+		if c.Thorough() {
+			reads = append(reads, wire.Op{Kind: "mget", Keys: []string{"a", "b"}, Quiet: []bool{true, false}}, wire.Op{Kind: "gat", Key: "a", TTL: 0})
+		}
+		w0 := concOps(true, "a", "b", "0")[:7]
+		w1 := concOps(true, "a", "b", "1")[:7]
+		for _, rd := range reads {
+			for _, o0 := range w0 {
+				for _, o1 := range w1 {
+					for _, ports := range [][2]int{{0, 0}, {0, 1}} {
+						item++
+						if !c.Mine(item) {
+							continue
+						}
+						if c.Expired() {
+							return
+						}
+						sc := ConcScenario{Harness: "C03", Cfg: cfg, Init: initStates("a")[2].Ops, Threads: []ConcThread{
+							{Port: ports[0], Ops: []wire.Op{rd, o0}}, {Port: ports[1], Ops: []wire.Op{rd, o1}}}}
+						bound := 2
+						if c.Thorough() {
+							bound = 3
+						}
+						explore(sc, bound)
+					}
+				}
+			}
+		}
+	}
 	// (4) thorough: a connection issues a command and then reads the key while another connection
 	// writes it (program order within a connection must be respected by any linearization)
 	if c.Thorough() {
